@@ -4,7 +4,7 @@ LEVEL = 'exploration'
 RULE = ('generated (pattern, argument) pairs of the same dynamic type for every kind the statement names (all integer widths, float32/64 without NaN/+-0 pairs, strings incl. numeric-looking, '
         'bools, structs, arrays, nil/empty slices and maps, pointers, pointer-to-pointer, nested structs, funcs by identity, each also boxed in interface{}) with boundary values and nils; '
         'Equals/In/Any are driven through Expr.Resolve/Eval and through real When(...) stubs and compared with Go ==/DeepEqual/identity, symmetry, In = union of Equals, Any, '
-        're-evaluation stability, no panic; distinct = (kind[, boxed], outcome) classes')
+        're-evaluation stability, no panic; the nil interface and typed nils of nine types against one another on interface{} and error parameters; distinct = (kind[, boxed], outcome) classes')
 
 
 def run(ctx):
@@ -15,3 +15,4 @@ def run(ctx):
     pairs, stubs, shards = ('15000', '300', 16) if not ctx.thorough else ('600000', '6000', 32)
     ctx.children(b, shards, run='TestC18$', env={'VERIF_C18_PAIRS': pairs}, timeout=1800)
     ctx.children(b, min(shards, 8), run='TestC18Stubs', env={'VERIF_C18_STUBS': stubs}, timeout=1800)
+    ctx.children(b, 1, run='TestC18Nils', timeout=300, what='TestC18Nils')
